@@ -8,7 +8,8 @@ git diff > /tmp/confirm_$id.diff
 if ! diff -q /tmp/confirm_$id.diff $S/patch.diff >/dev/null; then echo "$id: patch.diff differs from worktree diff"; fi
 go test -vet=off -count=1 ./... > /tmp/confirm_$id.suite 2>&1; echo "$id suite rc=$? status: $(git status --short | tr '\n' ' ')"
 sh $S/demo/run_demo.sh $WT > /tmp/confirm_$id.with 2>&1; echo "$id demo with patch rc=$?"
-git stash -q
+# (git stash is shared by all worktrees of a repository: reverse-apply the patch instead)
+git apply -R /tmp/confirm_$id.diff
 sh $S/demo/run_demo.sh $WT > /tmp/confirm_$id.without 2>&1; echo "$id demo without patch rc=$?"
-git stash pop -q
+git apply /tmp/confirm_$id.diff
 echo "$id final status: $(git status --short | tr '\n' ' ')"
